@@ -126,6 +126,7 @@ func init() {
 		Explain: "Decides: (S3) CheckSlice accepts only when start <= end, start >= 0, not(step == 0 and end-start > 1), start < size, and SliceDetails validates every non-nil slice, clamps end and expands nil to (0,size,1); (S4) AP.S and Shape.S refuse more slices than axes and take (start,end,step) of every axis from SliceDetails; (S5) the length term under step > 0 is ceil((end-start)/step) with no extra condition, identical in both calculators; (S9) Slice/SliceInto take window and access pattern from one AP.S call, slice data and mask with the same window, record the parent and copy dtype/engine/flag. " +
 			"(S12) the sliced access pattern is marked NonContiguous at least when a non-outermost axis of a non-vector is sliced or a step > 1 is taken, with the outermost axis chosen by data order (names bound structurally). Not decided: offset (ndStart/ndEnd) arithmetic, stride scaling, which dimensions are dropped.",
 		Run: func(rc *rules.RC) {
+			rules.S20(rc)
 			rules.S18(rc)
 			rules.S16(rc, 1)
 			rules.S15(rc)
@@ -141,6 +142,8 @@ func init() {
 		Explain: "Decides: (S5) the shape-only slice calculator and the access-pattern slice calculator compute the same length term, which is ceil((end-start)/step); (S4) both validate through SliceDetails and refuse too many slices; (S7) every path of Reshape that reaches reshape() has established equal total size, is not a non-contiguous view and has materialised a pending lazy transpose, and reshape() only sets the shape and checks sanity; (O8) for the metadata-invariant clause: no two tensors own the same shape/strides slices (an alias lets one tensor's reshape or recycling zero the other's shape); (S12) AP.S marks sliced views NonContiguous (the flag Reshape's refusal keys on); (S14) every call of the lock-respecting AP.SetShape happens on a pattern unlocked on every path (otherwise the shape is silently not installed and size != product of shape); (L1) RepeatReuse accepts a destination only when its shape is the computed result shape. " +
 			"Not decided: that shape and strides address distinct in-bounds positions (a runtime invariant over values), that reshape preserves the flat sequence, repeat/concat calculators' arithmetic.",
 		Run: func(rc *rules.RC) {
+			rules.S20(rc)
+			rules.T10(rc)
 			rules.T7(rc)
 			rules.S17(rc)
 			rules.SV(rc, 20)
@@ -314,6 +317,8 @@ func init() {
 		Explain: "Decides: (LA) the flag that selects StackDense's raw block-copy path is true only if no operand requires an iterator (initial value and every loop path, by implication); (L1) the block-copy calls are guarded by it, and whether denseRepeat consults the operand's layout (it does not: known finding 32); (K1w) doViewStack1/2/4/8 are one algorithm; (E2) in every loop of the stacking/repetition code a cursor advanced at the end of the body is advanced on every continue path; (O2/O3) repeats and shapes passed by the caller are neither kept nor modified; (L1) Hstack stacks along axis 0 only for rank-1 receivers and RepeatReuse accepts a destination only of the computed shape; (LC/LF) a new raw block copy or flat element loop must be layout-guarded; (P2) concat/stack/repeat do not write their operands (denseConcat does: known finding 16). " +
 			"Not decided: block-copy offsets/strides of denseRepeat and denseSimpleStack, the slice-and-assign placement of denseConcat, data-order agreement of stacked operands (finding 19).",
 		Run: func(rc *rules.RC) {
+			rules.IP2(rc)
+			rules.O8(rc)
 			rules.S17(rc)
 			rules.O6(rc)
 			rules.SS(rc)
